@@ -217,6 +217,16 @@ def stepScut (ws : List String) (impl : String) : String :=
         else s!"JUDGE C19 matches after the cut differ from the uninterrupted SaseEngine: {short impl}"
   | _ => "BADLINE"
 
+/-- the structural premises of `engine_restore` (`EngineSt.Restorable`), checked on a real checkpoint:
+LRU keys without duplicates, a buffered join pair carries its event's own timestamp, an effective
+watermark comes with an applied one -/
+def premisesHold (c : EngineCkpt) : Bool :=
+  c.distinctStates.all (fun kv => kv.2.eraseDups.length == kv.2.length)
+  && c.joinStates.all (fun kv => kv.2.buffers.all fun sb => sb.2.all fun kb => kb.2.all fun p => p.1 == p.2.tsMs)
+  && (match c.watermarkState with
+      | some w => w.effectiveMs.isNone || w.lastAppliedMs.isSome
+      | none => true)
+
 /-- `cut k n tags=… subms=b <engine checkpoint>` => `same` | `diff at=… exp=[…] got=[…]` | `unreadable …` | `panic`.
 The judge is the property itself (outputs after the cut equal); a failing cut is classified under
 the one listed finding iff the program has a self-referencing Kleene predicate (tag from the
@@ -227,7 +237,8 @@ def stepCut (ws : List String) (impl : String) : String :=
     match (parseWhole tree).bind decEngine with
     | none => "BADLINE"
     | some c =>
-      if impl == "same" then "ok"
+      if impl == "same" then
+        (if premisesHold c then "ok" else "DIFF a structural premise of engine_restore does not hold of this engine state")
       else
         let tagList := ((tags.drop 5).toString).splitOn ","
         if tagList.contains "kleene-self-ref" && hasKleeneRun c && impl.startsWith "diff" then
@@ -290,6 +301,18 @@ def freshOfKind (kind : String) : Option WinSt :=
   else if kind == "pSession" then some (.pSession [])
   else none
 
+def freshOfKindE (kind : String) : Option WinSt :=
+  if kind == "pCount" then some (.pCount [])
+  else if kind == "pSlidingCount" then some (.pSlidingCount [])
+  else freshOfKind kind
+
+def insertPart (kv : String × PartWinCkpt) : List (String × PartWinCkpt) → List (String × PartWinCkpt)
+  | [] => [kv]
+  | x :: xs => if kv.1 < x.1 then kv :: x :: xs else x :: insertPart kv xs
+
+/-- partitions listed by key (the harness prints hash maps sorted) -/
+def canonWC (w : WindowCkpt) : WindowCkpt := { w with partitions := w.partitions.foldr insertPart [] }
+
 structure St where
   cfg : WinCfg := {}
   a : Option WinSt := none
@@ -297,6 +320,27 @@ structure St where
   src0 : List (String × SrcWm) := []
   ta : Option WmSt := none
   tb : Option WmSt := none
+  /-- engine-level scenario with a single window stream: (stream name, fresh operator, configuration) … -/
+  wspec : Option (String × WinSt × WinCfg) := none
+  /-- … and its operations in order (`none` for an operation that is not an event of type `T`) -/
+  evs : List (Option Event) := []
+
+/-- engine-level tie of `create_checkpoint`'s window arms: the window state of stream `W` after the
+first `k` operations, computed by the model from the events alone, must be what the real engine
+checkpointed (this also reaches the two `Partitioned*State` operators that have no public API) -/
+def checkWindowCkpt (st : St) (ws : List String) : String :=
+  match st.wspec, ws with
+  | some (name, fresh, cfg), k :: _n :: _tags :: _subms :: tree =>
+    match k.toNat?, (parseWhole tree).bind decEngine with
+    | some k, some c =>
+      let w := (st.evs.take k).foldl (fun w oe => match oe with
+        | some e => (WinSt.step cfg pkOf w (.add e)).1
+        | none => w) fresh
+      match c.windowStates.lookup name with
+      | some real => if canonWC real == canonWC w.ckpt then "ok" else s!"DIFF model window checkpoint differs: {short (Json.text (encWC (canonWC w.ckpt)))}"
+      | none => "DIFF no window state for the stream in the engine checkpoint"
+    | _, _ => "BADLINE"
+  | _, _ => "ok"
 
 def effText (w : WmSt) : String := match w.effective with | some t => toString t | none => "-"
 
@@ -391,12 +435,22 @@ def step (st : St) (line : String) : St × String :=
     | none => (st, "BADLINE")
   | ["tcut"] => stepTcut st impl
   | "prog" :: _ => (st, "")
-  | "op" :: _ => (st, "")
+  | ["wspec", name, kind, dur, slide, n, m] =>
+    match freshOfKindE kind, dur.toInt?, slide.toInt?, n.toNat?, m.toNat? with
+    | some w, some d, some sl, some n, some m => ({ st with wspec := some (name, w, { dur := d, slide := sl, n := n, m := m }), evs := [] }, "")
+    | _, _, _, _, _ => (st, "BADLINE")
+  | "op" :: "ev" :: ws =>
+    match (parseWhole ws).bind decEventL with
+    | some e => ({ st with evs := st.evs ++ [if e.etype == "T" then some e else none] }, "")
+    | none => (st, "BADLINE")
+  | "op" :: _ => ({ st with evs := st.evs ++ [none] }, "")
   | "ev" :: ws => (st, stepEv ws impl)
   | "ck" :: "engine" :: ws => (st, stepCk decEngine encEngine ws impl)
   | "ck" :: "checkpoint" :: ws => (st, stepCk decCkpt encCkpt ws impl)
   | "det" :: variant :: ws => (st, stepDet variant ws impl)
-  | "cut" :: ws => (st, stepCut ws impl)
+  | "cut" :: ws =>
+    let v := stepCut ws impl
+    (st, if v == "ok" then checkWindowCkpt st ws else v)
   | "scut" :: ws => (st, stepScut ws impl)
   | [] => (st, "")
   | _ => (st, "BADLINE")
